@@ -91,16 +91,34 @@ impl CriticalWindow {
 }
 
 /// Pick the highest-quality connection for a packet that lands inside a
-/// critical window. Among connected, schedulable links, returns the one with
-/// the best quality multiplier; `None` if none are schedulable (caller falls
-/// back to normal selection). This is the action taken while
-/// [`CriticalWindow::is_critical_now`] is true.
+/// critical window. Among connected, schedulable links that are not stall-gated,
+/// returns the one with the best quality multiplier; `None` if none are
+/// schedulable (caller falls back to normal selection). This is the action taken
+/// while [`CriticalWindow::is_critical_now`] is true.
 pub fn select_best_quality_idx(conns: &[crate::connection::SrtlaConnection]) -> Option<usize> {
+    best_quality_where(conns, |_| true)
+}
+
+/// [`select_best_quality_idx`] restricted to links that are also not timed out at
+/// `now_ms`. This is what the packet path uses: the override must never hand
+/// must-land traffic to a link normal selection refuses (timed out, or
+/// stall-gated as computed by the selection pass that just ran).
+pub fn select_best_quality_idx_at(
+    conns: &[crate::connection::SrtlaConnection],
+    now_ms: u64,
+) -> Option<usize> {
+    best_quality_where(conns, |c| !c.is_timed_out(now_ms))
+}
+
+fn best_quality_where(
+    conns: &[crate::connection::SrtlaConnection],
+    extra: impl Fn(&crate::connection::SrtlaConnection) -> bool,
+) -> Option<usize> {
     let mut best_idx = None;
     let mut best_quality = f64::NEG_INFINITY;
 
     for (i, conn) in conns.iter().enumerate() {
-        if !conn.connected || !conn.is_schedulable() {
+        if !conn.connected || !conn.is_schedulable() || conn.is_stall_gated() || !extra(conn) {
             continue;
         }
         let q = conn.quality_cache.multiplier;
